@@ -13,7 +13,7 @@ vars == <<cid, iid, phase>>
 C == Cases[cid]
 F == C.files
 \* helper rules of the sugar are compared up to their names: a helper is renamed to <base FQN><documented suffix>
-Canon(n) == IF n \in DOMAIN C.helpers THEN C.helpers[n].base \o MultSuffix(C.helpers[n].mult) ELSE n
+Canon(n) == IF n \in DOMAIN C.helpers THEN C.helpers[n].base \o MultSuffix(C.helpers[n].mult) \o (IF C.helpers[n].sep # "" THEN "_" \o C.helpers[n].sep ELSE "") ELSE n
 RealSet == { [lhs |-> Canon(C.prods[i].lhs), rhs |-> [ k \in DOMAIN C.prods[i].rhs |-> Canon(C.prods[i].rhs[k]) ]] : i \in 2..Len(C.prods) }
 RECURSIVE SetToSeq2(_)
 SetToSeq2(S) == IF S = {} THEN <<>> ELSE LET x == CHOOSE y \in S : TRUE IN <<x>> \o SetToSeq2(S \ {x})
@@ -31,6 +31,7 @@ Facts == LET P == Prefixes(F, C.root) IN
          IF \E h \in DOMAIN P : \E i \in DOMAIN F[h].rules :
                IsOverride(F[h].rules[i]) /\ Cardinality(InEdges(OverrideTarget(F, h, F[h].rules[i])[1])) > 1
          THEN {"override-target-file-has-several-import-paths"} ELSE {}
+Facts2 == IF SeparatorNameShared(F, Prefixes(F, C.root)) THEN {"separators-of-one-base-share-a-local-name"} ELSE {}
 In == C.inputs[iid]
 TT == TermTable(F, C.root)
 Edges(toks) == UNION { { <<x[1], i-1, i>> : x \in { y \in TT : y[2] = toks[i] } } : i \in DOMAIN toks }
@@ -52,5 +53,5 @@ Chk == iid # 0 /\ phase = 0 /\ phase' = 1 /\ UNCHANGED <<cid, iid>>
 Spec == Init /\ [][Pick \/ Chk]_vars
 Report ==
   /\ phase = 1 => PrintT(<<"VERDICT", C.cix, iid, InputClauses>>)
-  /\ (iid = 0 /\ phase = 0) => PrintT(<<"CASE", C.cix, GrammarClauses, Facts>>)
+  /\ (iid = 0 /\ phase = 0) => PrintT(<<"CASE", C.cix, GrammarClauses, Facts \cup Facts2>>)
 =============================================================================
